@@ -836,6 +836,9 @@ theorem path_absent_with_others (fl : Flavour) (name : Str) (st : Sty) (ex req :
     rcases hst with rfl | rfl | rfl <;> cases ex <;>
       simp [decodeStyled, earlyAbsent, decodeValue, decodeLeaf, pathObj, pathObjFmt, pathRaw]
   | deep sp rq => exact absurd rfl (hl sp rq)
+  | untyped en =>
+    cases hu : fl.untypedAsString <;> rcases hst with rfl | rfl | rfl <;>
+      simp [decodeStyled, earlyAbsent, decodeValue, decodeLeaf, hu, present, pathPrim, pathPrimPrefix, pathRaw, absent]
 
 /-! ### deepObject with nested objects and arrays (tied by the differential run; concrete behaviour pinned here) -/
 
@@ -1048,11 +1051,13 @@ theorem decodeLeaf_flavour_partial (c : Cell) (name : Str) (r : Req) (l : Leaf) 
     (hck : c.loc = .cookie → c.explode = true → leafIsPrim l = true)
     (hqa : c.loc = .query → c.style = .form → c.explode = true → leafQueryObjAbsent r l = false)
     (hnp : c.loc = .query → leafNoProps l = false)
-    (hjunk : c.loc = .query → c.style = .deepObject → strictReq name r = r) :
+    (hjunk : c.loc = .query → c.style = .deepObject → strictReq name r = r)
+    (hunt : leafUntyped l = false) :
     decodeLeaf impl c name r l = decodeLeaf spec c name r l := by
   obtain ⟨loc, st, ex⟩ := c
   simp only at hdeep hck hqa hnp hjunk
   cases l with
+  | untyped en => simp [leafUntyped] at hunt
   | prim ps =>
     cases loc <;> simp [decodeLeaf, impl, spec, specPrim_eq_parsePrim]
   | arr items mn mx en =>
@@ -1102,7 +1107,7 @@ decoder-level classes. `hdeep` is the model's domain (nested property schemas ar
 theorem decodeStyled_impl_eq_spec_partial (p : Param) (r : Req)
     (hdeep : ∀ l ∈ schLeaves p.schema, ∀ sp rq, l = .deep sp rq → p.cell.loc = .query ∧ p.cell.style = .deepObject)
     (h1 : CookieExplode p = false) (h3 : QueryObjAbsent p r = false) (h4 : QueryObjNoProps p = false)
-    (h5 : DeepKeyJunk p r = false) :
+    (h5 : DeepKeyJunk p r = false) (h6 : UntypedSchema p = false) :
     decodeStyled impl p.cell p.name p.required r p.schema = decodeStyled spec p.cell p.name p.required r p.schema := by
   obtain ⟨c, name, req, ae, sch⟩ := p
   simp only at hdeep ⊢
@@ -1130,6 +1135,7 @@ theorem decodeStyled_impl_eq_spec_partial (p : Param) (r : Req)
       · intro hloc hst
         simp only [DeepKeyJunk, hloc, hst, decide_true, Bool.true_and] at h5
         exact strictReq_of_noJunk name r h5
+      · exact any_false_mem _ _ h6 l hl
     cases sch with
     | leaf l => exact hleaf l (by simp [schLeaves])
     | allOf ls => exact decAllOf_congr _ _ ls _ _ hleaf
@@ -1143,10 +1149,10 @@ ValidateParameter is the specification's verdict outside CookieExplode, EnumGoTy
 theorem validate_eq_spec_partial (p : Param) (r : Req) (l : Leaf) (hs : p.schema = .leaf l) (hwf : leafWF l)
     (hdeep : ∀ sp rq, l = .deep sp rq → p.cell.loc = .query ∧ p.cell.style = .deepObject)
     (h1 : CookieExplode p = false) (h2 : EnumGoType p = false) (h3 : QueryObjAbsent p r = false)
-    (h4 : QueryObjNoProps p = false) (h5 : DeepKeyJunk p r = false) :
+    (h4 : QueryObjNoProps p = false) (h5 : DeepKeyJunk p r = false) (h6 : UntypedSchema p = false) :
     validateParameter p r = validateSpec p r := by
   unfold validateParameter validateSpec
-  rw [decodeStyled_impl_eq_spec_partial p r (by rw [hs]; intro l' hl'; simp [schLeaves] at hl'; subst hl'; exact hdeep) h1 h3 h4 h5]
+  rw [decodeStyled_impl_eq_spec_partial p r (by rw [hs]; intro l' hl'; simp [schLeaves] at hl'; subst hl'; exact hdeep) h1 h3 h4 h5 h6]
   have hg : leafEnumGoType l = false := by
     simpa [EnumGoType, hs, schLeaves, isComposition] using h2
   obtain ⟨c, name, req, ae, sch⟩ := p
@@ -1170,10 +1176,10 @@ theorem validate_eq_spec_enumfree_partial (p : Param) (r : Req)
     (hfree : (schLeaves p.schema).all leafEnumFree = true)
     (hdeep : ∀ l ∈ schLeaves p.schema, ∀ sp rq, l = .deep sp rq → p.cell.loc = .query ∧ p.cell.style = .deepObject)
     (h1 : CookieExplode p = false) (h3 : QueryObjAbsent p r = false) (h4 : QueryObjNoProps p = false)
-    (h5 : DeepKeyJunk p r = false) :
+    (h5 : DeepKeyJunk p r = false) (h6 : UntypedSchema p = false) :
     validateParameter p r = validateSpec p r := by
   unfold validateParameter validateSpec
-  rw [decodeStyled_impl_eq_spec_partial p r hdeep h1 h3 h4 h5]
+  rw [decodeStyled_impl_eq_spec_partial p r hdeep h1 h3 h4 h5 h6]
   simp only [decide', visitSch_enumFree enumHitImpl deepEqImpl enumHitSpec enumHitSpec p.schema _ hfree]
 
 example : let p : Param := ⟨⟨.query, .pipeDelimited, false⟩, ['p'], true, false,
@@ -1219,8 +1225,8 @@ theorem respHeader_error (fl : Flavour) (visit : Sch → Val → Bool) (name : S
 /-- an absent response header: missing iff required, for every leaf schema and both explode settings -/
 theorem respHeader_absent (fl : Flavour) (visit : Sch → Val → Bool) (name : Str) (ex required : Bool) (l : Leaf) :
     validateRespHeader fl visit name .simple ex required {} (.leaf l) = if required then .missing else .accept := by
-  cases l <;> cases required <;>
-    simp [validateRespHeader, decodeValue, decodeLeaf, headerPrim, headerArr, headerObj, headerRaw, headerFound]
+  cases l <;> cases required <;> cases hu : fl.untypedAsString <;>
+    simp [validateRespHeader, decodeValue, decodeLeaf, hu, present, headerPrim, headerArr, headerObj, headerRaw, headerFound]
 
 /-- a response header that is present with an empty value decodes to nil and is validated as null: every primitive
 or array schema rejects it (the request side answers `empty`, or accepts under allowEmptyValue) -/
@@ -1248,12 +1254,12 @@ theorem respHeader_eq_param (name : Str) (st : Sty) (ex required ae : Bool) (r :
 /-- code = specification for response headers: every single-leaf schema outside EnumGoType (the decoder-level classes do
 not touch headers) -/
 theorem respHeader_eq_spec_partial (name : Str) (st : Sty) (ex required : Bool) (r : Req) (l : Leaf) (hwf : leafWF l)
-    (hdeep : ∀ sp rq, l ≠ .deep sp rq) (h2 : leafEnumGoType l = false) :
+    (hdeep : ∀ sp rq, l ≠ .deep sp rq) (h2 : leafEnumGoType l = false) (h6 : leafUntyped l = false) :
     respHeaderImpl name st ex required r (.leaf l) = respHeaderSpec name st ex required r (.leaf l) := by
   unfold respHeaderImpl respHeaderSpec validateRespHeader
   have hd : decodeLeaf impl ⟨.header, st, ex⟩ name r l = decodeLeaf spec ⟨.header, st, ex⟩ name r l :=
     decodeLeaf_flavour_partial ⟨.header, st, ex⟩ name r l (by simp [earlyAbsent])
-      (fun sp rq e => absurd e (hdeep sp rq)) (by simp) (by simp) (by simp) (by simp)
+      (fun sp rq e => absurd e (hdeep sp rq)) (by simp) (by simp) (by simp) (by simp) h6
   have hty : TypedVal l (decodeLeaf spec ⟨.header, st, ex⟩ name r l).val :=
     decodeLeaf_typed spec (by simp [spec, specPrim_eq_parsePrim]) _ name r l hwf
   simp only [decodeValue, hd, visitSch]
@@ -1360,6 +1366,24 @@ theorem deep_key_junk_witness :
     (decodeStyled spec p.cell p.name false r2 sch).val = .dobj [(['a'], .p (.int 1))] ∧
     DeepKeyJunk p r3 = true ∧ (decodeStyled impl p.cell p.name false r3 sch).val = .dobj [(['a'], .p (.int 5))] ∧
     decodeStyled spec p.cell p.name false r3 sch = absentObj := by
+  decide
+
+/-- F-C05-8 (UntypedSchema): `?q=abc` against `schema: {}` (or `{enum: [abc, x]}`: no `type`): decodeValue never reads
+the text — it falls through to its last switch and returns (nil, found=true) — and ValidateParameter reports the present
+parameter as an *empty value*; the specification reads the text as a string and accepts. The same in a header, a
+cookie and a path; a response header with such a schema is rejected whenever it is present (nil is validated). -/
+theorem untyped_schema_witness :
+    let p : Param := ⟨⟨.query, .form, true⟩, ['q'], false, false, .leaf (.untyped [])⟩
+    let pe : Param := ⟨⟨.header, .simple, false⟩, ['q'], true, false, .leaf (.untyped [.str "abc".toList, .str ['x']])⟩
+    let r : Req := { query := [(['q'], ["abc".toList])] }
+    let rh : Req := { header := some ["abc".toList] }
+    UntypedSchema p = true ∧ validateParameter p r = .empty ∧ validateSpec p r = .accept ∧
+    decodeStyled impl p.cell p.name false r p.schema = ⟨.nil, true, none⟩ ∧
+    decodeStyled spec p.cell p.name false r p.schema = ⟨.prim (.str "abc".toList), true, none⟩ ∧
+    UntypedSchema pe = true ∧ validateParameter pe rh = .empty ∧ validateSpec pe rh = .accept ∧
+    validateSpec pe { header := some ["zz".toList] } = .schema ∧
+    respHeaderImpl ['q'] .simple false false rh (.leaf (.untyped [])) = .schema ∧
+    respHeaderSpec ['q'] .simple false false rh (.leaf (.untyped [])) = .accept := by
   decide
 
 /-- well-formed keys are exactly `name[s1]…[sn]`; text after, between or instead of the closing bracket is junk -/
